@@ -860,6 +860,9 @@ def run_docs(jobs):
         try:
             if kind == "chna-only":
                 adm, feat = make_chna_only_doc(seed)
+            elif kind == "directed":
+                from . import c08_directed
+                adm, feat = c08_directed.make_directed_doc(seed, version)
             else:
                 adm, feat = make_doc(seed, version, size)
         except Exception as e:
@@ -868,6 +871,10 @@ def run_docs(jobs):
         for k, n in feat.items():
             feats[k] = feats.get(k, 0) + n
         feats["docs:" + kind + "/v%d" % version] = feats.get("docs:" + kind + "/v%d" % version, 0) + 1
-        for tag, det in predicate(adm, version, chna_only=(kind == "chna-only")):
+        try:
+            res = predicate(adm, version, chna_only=(kind == "chna-only"))
+        except Exception as e:
+            res = [("predicate-raises", {"exc": "%s: %s" % (type(e).__name__, str(e)[:400])})]
+        for tag, det in res:
             fails.append((job, tag, det))
     return feats, fails, len(jobs)
